@@ -116,6 +116,8 @@ def run_spec(spec, rec=None):
             if problems:
                 fail('lists-exactly-the-planted-cells', 'listing:' + ('address' if any('not listed' in p for p in problems) else 'fragments' if any('fragments' in p for p in problems) else 'extra'),
                      [[t, wbk.a1(c, r), v] for (t, c, r, v) in planted], listed, {'problems': problems})
+        if planted:
+            fails += one_parser_sequences(spec, model, path, rec)
         return fails
     finally:
         try:
@@ -124,13 +126,65 @@ def run_spec(spec, rec=None):
             pass
 
 
+def one_parser_sequences(spec, model, path, rec):
+    """The gate on a long-lived Parser: toggling the setting, and a file whose content changes under the same path."""
+    fails = []
+
+    def kind_of(fn):
+        def go():
+            try:
+                fn()
+                return 'text'
+            except wbk.excel2pycl.E2PyclSafetyException:
+                return 'safety'
+        o = wbk.outcome(go)
+        return o[1] if o[0] == 'value' else o[0] + ':' + (o[1] if len(o) > 1 else '')
+
+    def fail(bucket, expected, actual):
+        fails.append({'case': spec, 'expected': expected, 'actual': actual, 'relation': 'gate-follows-the-current-setting-and-content',
+                      'bucket': bucket, 'extra': None})
+    # (a) disabled -> translated; enabled -> rejected; disabled again -> translated
+    p = wbk.Parser().set_excel_file_path(path)
+    p.disable_safety_check()
+    seq = [kind_of(p.get_translation)]
+    p.enable_safety_check()
+    seq.append(kind_of(p.get_translation))
+    seq.append(kind_of(p.get_translation))
+    p.disable_safety_check()
+    seq.append(kind_of(p.get_translation))
+    if rec:
+        rec.count('toggle_sequences')
+    if 'timeout' not in ''.join(seq) and seq != ['text', 'safety', 'safety', 'text']:
+        if not any(x.startswith(('lib:', 'foreign:')) for x in seq):
+            fail('toggle-on-one-parser', ['text', 'safety', 'safety', 'text'], seq)
+    # (b) an innocent file passes the enabled gate; the same path then holds the suspicious workbook
+    innocent = {'sheets': [{'title': sh['title'], 'cells': {'A1': 1}} for sh in model['sheets']]}
+    p2path = wbk.new_path()
+    try:
+        wbk.write_xlsx(innocent, p2path)
+        q = wbk.Parser().set_excel_file_path(p2path)
+        q.enable_safety_check()
+        first = kind_of(q.get_translation)
+        wbk.write_xlsx(model, p2path)
+        q.set_excel_file_path(p2path)
+        second = kind_of(q.get_translation)
+        if first == 'text' and second not in ('safety',) and 'timeout' not in second:
+            fail('same-path-new-content', ['text', 'safety'], [first, second])
+    finally:
+        try:
+            os.unlink(p2path)
+        except OSError:
+            pass
+    return fails
+
+
 def run_case(spec):
     return run_spec(spec)
 
 
 def strategy():
     from hypothesis import strategies as st
-    titles = st.sampled_from(['S', 'Data', 'My Sheet', 'Лист 1', 'a-b', 'B2', 'x.y'])
+    titles = st.sampled_from(['S', 'Data', 'My Sheet', 'Лист 1', 'a-b', 'B2', 'x.y', "Bob's data", "it's"])
 
     @st.composite
     def spec(draw):
